@@ -299,7 +299,7 @@ func g4Rewrite(r *Repo, rep *Report) {
 		return
 	}
 	info := fi.Pkg.TypesInfo
-	par := parents(fi.Decl)
+	_ = parents
 	g := newGraph(fi.Decl.Body, mayReturnFn(info))
 	// find the OpenFile call and the bool variable guarding it
 	var open *ast.CallExpr
@@ -312,16 +312,40 @@ func g4Rewrite(r *Repo, rep *Report) {
 	if open == nil {
 		return // reported by owner-missing
 	}
+	// the guard: a boolean variable v tested by a condition that dominates the OpenFile call and whose "v is false" outcome
+	// cannot reach the call within the same iteration (if changed { rewrite }  /  if !changed { continue }; rewrite)
 	var guard types.Object
-	var guardIf *ast.IfStmt
-	for n := par[open]; n != nil; n = par[n] {
-		if ifs, ok := n.(*ast.IfStmt); ok {
-			if id, ok := ast.Unparen(ifs.Cond).(*ast.Ident); ok && ifs.Body.Pos() <= open.Pos() && open.End() <= ifs.Body.End() {
-				if v, ok := info.Uses[id].(*types.Var); ok && types.Identical(v.Type(), types.Typ[types.Bool]) {
-					guard, guardIf = v, ifs
-					break
-				}
-			}
+	var guardBlk *cfg.Block
+	loopHead := func(b *cfg.Block) bool { return b.Kind == cfg.KindRangeLoop || b.Kind == cfg.KindForLoop }
+	ob, _ := g.locate(open.Pos())
+	for _, b := range g.Blocks {
+		if len(b.Succs) != 2 || len(b.Nodes) == 0 || ob == nil || guard != nil {
+			continue
+		}
+		cond, ok := b.Nodes[len(b.Nodes)-1].(ast.Expr)
+		if !ok {
+			continue
+		}
+		neg := false
+		ce := ast.Unparen(cond)
+		if u, ok := ce.(*ast.UnaryExpr); ok && u.Op == token.NOT {
+			neg = true
+			ce = ast.Unparen(u.X)
+		}
+		id, ok := ce.(*ast.Ident)
+		if !ok {
+			continue
+		}
+		v, ok := info.Uses[id].(*types.Var)
+		if !ok || !types.Identical(v.Type(), types.Typ[types.Bool]) {
+			continue
+		}
+		falseSucc := b.Succs[1]
+		if neg {
+			falseSucc = b.Succs[0]
+		}
+		if g.dominates(b, ob) && falseSucc != ob && !g.reachable([]*cfg.Block{falseSucc}, loopHead)[ob] {
+			guard, guardBlk = v, b
 		}
 	}
 	if guard == nil {
@@ -360,14 +384,28 @@ func g4Rewrite(r *Repo, rep *Report) {
 				continue // changed := false
 			}
 			nstores++
-			// (a) enclosing if with a != between the name returned by Add and the call's name
+			// (a) reachable only through the "differs" outcome of a comparison of two strings (the name returned by Add and the
+			// call's name): if name != call.Name { … }  /  if name == call.Name { continue }
 			okA := false
-			for n := par[as]; n != nil; n = par[n] {
-				if ifs, ok := n.(*ast.IfStmt); ok && ifs.Body.Pos() <= as.Pos() && as.End() <= ifs.Body.End() {
-					if be, ok := ast.Unparen(ifs.Cond).(*ast.BinaryExpr); ok && be.Op == token.NEQ &&
-						types.Identical(info.TypeOf(be.X), types.Typ[types.String]) {
-						okA = true
-					}
+			sbA, _ := g.locate(as.Pos())
+			for _, b := range g.Blocks {
+				if len(b.Succs) != 2 || len(b.Nodes) == 0 || sbA == nil {
+					continue
+				}
+				cond, ok := b.Nodes[len(b.Nodes)-1].(ast.Expr)
+				if !ok {
+					continue
+				}
+				be, ok := ast.Unparen(cond).(*ast.BinaryExpr)
+				if !ok || (be.Op != token.NEQ && be.Op != token.EQL) || !types.Identical(info.TypeOf(be.X), types.Typ[types.String]) {
+					continue
+				}
+				eqSucc := b.Succs[0]
+				if be.Op == token.NEQ {
+					eqSucc = b.Succs[1]
+				}
+				if g.dominates(b, sbA) && eqSucc != sbA && !g.reachable([]*cfg.Block{eqSucc}, loopHead)[sbA] {
+					okA = true
 				}
 			}
 			// (b) a block that tests !autoname && !dedup (or equivalent) whose true branch cannot reach the store
@@ -398,7 +436,7 @@ func g4Rewrite(r *Repo, rep *Report) {
 		}
 		return true
 	})
-	g4ChangedReset(r, rep, fi, g, guard, guardIf)
+	g4ChangedReset(r, rep, fi, g, guard, guardBlk)
 	if nstores == 0 {
 		rep.fail(Finding{Rule: "G4", Key: "G4|changed-store|none", Kind: "undecided", Msg: "newPackage: no store to the rewrite guard found"})
 	}
